@@ -591,6 +591,8 @@ class Universe:
                         self.fail("C01.copy", f"step {k}: in the {op}, child {c} of {x} is located in a grid that is not its parent's", what="relink-locator", op=op)
                     if lga is xa.spatialGrid and lga is not None and lg is not g:
                         self.fail("C01.copy", f"step {k}: in the {op}, child {c} of {x} lost its place in the parent's grid (the original's locator is attached, the copy's is {lg})", what="relink-locator-lost", op=op)
+                    if lg is g and hasattr(c.spatialLocator, "_locations") and any(sub.grid is not g for sub in c.spatialLocator):
+                        self.fail("C01.copy", f"step {k}: in the {op}, the multi-location of {c} belongs to the copy's grid but its sub-locations do not ({[type(sub.grid).__name__ for sub in c.spatialLocator][:3]})", what="relink-sublocations", op=op)
 
 
 def execute(plan):
